@@ -416,7 +416,11 @@ func c14Case(rt *rapid.T, rec *ev.Rec) {
 		// what a kept handle shows is the live account (after a Reset: the account of the snapshot reset to)
 		for i := 0; i < c14Accounts; i++ {
 			if h, ok := handles[i]; ok {
-				if msg := c14CheckData(h, i, live.get(i), false); msg != "" {
+				want := live[i] // (no live.get here: looking must not add an entry to the model)
+				if want == nil {
+					want = &c14Acct{balance: new(big.Int), store: map[string][]byte{}}
+				}
+				if msg := c14CheckData(h, i, want, false); msg != "" {
 					fail(step, "the AccountState handle of account %d obtained earlier differs from the model: %s", i, msg)
 				}
 			}
@@ -687,6 +691,6 @@ func TestC14(t *testing.T) {
 	rec.Assume("canonical hash = hash of a fresh world state on a fresh MapDB filled once with the model contents in sorted order (metamorphic reference; account RLP/trie encoding itself is not re-implemented)")
 	log.GlobalLogger().SetLevel(log.WarnLevel) // hide the debug line of InitContractAccount on a contract
 	t.Run("histories", func(t *testing.T) {
-		ev.Check(t, 3000, 60000, func(rt *rapid.T) { c14Case(rt, rec) })
+		ev.Check(t, 8000, 60000, func(rt *rapid.T) { c14Case(rt, rec) })
 	})
 }
